@@ -716,7 +716,9 @@ Section Infer.
     | JArr l =>
         let nm := list_name [] 0%N in
         arr_merges_ok l nm true 0%N && list_ok (arr_contribs l nm true 0%N) &&
-        tc_safe (list_tc (arr_contribs l nm true 0%N))
+        (* the element container of the root array is not rendered as a type
+           (class Container has one field per non-object element): only its members matter *)
+        tys_safe (tc_items (list_tc (arr_contribs l nm true 0%N)))
     | _ => false
     end.
 
